@@ -43,6 +43,10 @@ def probes_for(r, kinds):
 
 def gen_case(r, shape):
     leaf = G.leaf_of_shape(r, shape, "typed")
+    if SP.SIG_OF[shape[2]] == "single" and shape[1] is None and r.pct() < 8:
+        # a LITERAL mapping argument whose only key is spelled like the callable's own parameter
+        pname = next(iter(leaf.kwargs))
+        leaf = leaf.replace(kwargs={pname: {r.choice([pname, "value", "key", "keys"]): G.scalar(r)}})
     t = leaf
     kinds = {shape[0]}
     if r.pct() < 35:
